@@ -113,7 +113,7 @@ func rGenTemplate(rng *rand.Rand) []rRoute {
 	default:
 		rs = append(rs, rRoute{m2, base + "/:id/*"})
 	}
-	cut := 2 + rng.Intn(len(base)-2)
+	cut := 2 + rng.Intn(len(base)-1) // up to the whole base: the node owning the parameter and wildcard children is split
 	rs = append(rs, rRoute{rMethods[rng.Intn(len(rMethods))], base[:cut] + []string{"x", "ploads", "/z", ""}[rng.Intn(4)]})
 	if rng.Intn(2) == 0 {
 		rs = append(rs, rRoute{rNF, base + "/*"})
@@ -121,6 +121,10 @@ func rGenTemplate(rng *rand.Rand) []rRoute {
 	if rng.Intn(2) == 0 {
 		// a not-found route sharing its node with method handlers, and a less specific route matching the same paths
 		rs = append(rs, rRoute{rNF, rs[1].pattern}, rRoute{m2, "/:kind/:name"})
+		if rng.Intn(2) == 0 {
+			// ... which carries a not-found route of its own: two fully matching nodes, each with a snapshot of values
+			rs = append(rs, rRoute{rNF, "/:kind/:name"})
+		}
 	}
 	seen := map[string]bool{}
 	var out []rRoute
